@@ -3,7 +3,7 @@
    variants, positional / option / flag fields, Option, default_value, default_value_t, explicit names, nested sub-commands, groups,
    hidden groups); `conv` is the field type's canonical parser. That the proc-macro emits what the model interprets is established
    only on the declarations generated and compiled each run (programs are sampled - stated in DESIGN.md and MANIFEST.json). *)
-From EC Require Import Base Model.Args Model.Cli Model.Derive Spec.ArgSpec Spec.Session Proofs.ArgsProofs Proofs.DeriveProofs Proofs.SessionProofs.
+From EC Require Import Base Model.Args Model.Cli Model.Derive Spec.ArgSpec Spec.Session Proofs.ArgsProofs Proofs.DeriveProofs Proofs.SessionProofs Proofs.HelpProofs Proofs.SubcmdProofs.
 
 (* dispatch by name: unknown name <=> no variant has it; otherwise the FIRST variant with that name parses the arguments *)
 Theorem C09_unknown : forall fuel cmds name args, Forall (fun d => c_name d <> name) cmds -> parse_enum (S fuel) cmds name args = PErr EUnknown.
@@ -51,6 +51,27 @@ Theorem C09_first_missing : forall ds e, forallb default_ok ds = true ->
   end.
 Proof. exact build_fields_missing. Qed.
 Print Assumptions C09_first_missing.
+
+(* sub-commands: when the first token after a command that has a sub-command is a plain value it names the sub-command, which is parsed
+   (by the sub-command enum's own parser) from exactly the remaining tokens; its error is the error reported; with nothing after the
+   command an optional sub-command is absent and a required one is reported missing as <COMMAND>, after the command's own arguments *)
+Theorem C09_subcommand : forall ps c o t subs v rest, c_sub c = Some (o, t, subs) -> classify_tok false v = ([Value v], false) ->
+  parse_cmd ps c (v :: rest) =
+  match ps subs v rest with
+  | PErr er => PErr er
+  | PPanic => PPanic
+  | POk tv => match build_fields (c_args c) [] with inl er => PErr er | inr fs => POk (TV (c_name c) fs (Some (Some tv))) end
+  end.
+Proof. exact parse_cmd_sub_first. Qed.
+Print Assumptions C09_subcommand.
+Theorem C09_subcommand_missing : forall ps c o t subs, c_sub c = Some (o, t, subs) ->
+  parse_cmd ps c [] =
+  match build_fields (c_args c) [] with
+  | inl er => PErr er
+  | inr fs => if o then POk (TV (c_name c) fs (Some None)) else PErr (EMissing [60;67;79;77;77;65;78;68;62])
+  end.
+Proof. exact parse_cmd_sub_missing. Qed.
+Print Assumptions C09_subcommand_missing.
 
 (* a line the typed parser rejects never reaches the handler (abstract dispatch, which the Cli refines: C01) *)
 Theorem C09_no_call_on_error : forall feats cs a n args e, QuoteSpec.tokens_fun (IdealEditor.ibytes (aline a)) = n :: args ->
